@@ -811,7 +811,11 @@ impl Kanata {
                 log::debug!("dyn macro extra ticks: {extra_ticks}, ms_elapsed: {ms_elapsed}");
             }
         }
-        for i in 0..(extra_ticks.saturating_sub(ms_elapsed as u16)) {
+        // Clamp rather than truncate: with `ms_elapsed as u16` an ms_elapsed of 65536 or more wraps
+        // to a small number, the loop below then runs past the recorded delay and the dynamic
+        // macro event it pops is dropped (a dropped release leaves the key pressed forever).
+        let ms_elapsed_u16 = u16::try_from(ms_elapsed).unwrap_or(u16::MAX);
+        for i in 0..(extra_ticks.saturating_sub(ms_elapsed_u16)) {
             self.tick_states(_tx)?;
             if tick_replay_state(
                 &mut self.dynamic_macro_replay_state,
